@@ -48,7 +48,7 @@ def degenerate_input(rng: random.Random, flavour: int) -> Dict:
         deg.append({"id": 1000 + len(deg) * 7, "len": dx[-1] + length_extra, "x": dx, "kind": "degenerate",
                     "ref": 0, "mirrored": False})
 
-    if flavour % 7 == 6:      # a reference whose labels stop long before its end marker; molecules longer than the
+    if flavour % 8 == 6:      # a reference whose labels stop long before its end marker; molecules longer than the
         # labelled part but shorter than the contig length
         if rng.random() < 0.6:
             refs[:] = []          # the sparse reference alone (its spurious peak is then certainly selected)
@@ -57,21 +57,37 @@ def degenerate_input(rng: random.Random, flavour: int) -> Dict:
                      "x": [v * 10 for v in sorted(rng.sample(range(500, 40000), rng.randint(1, 4)))], "bp": []})
         q(list(range(0, rng.randint(90000, 400000), 11000)))
         q([0, 20000, 45000, 70000, 99000, 130000])
-    elif flavour % 7 == 0:      # one- and two-label molecules
+    elif flavour % 8 == 7:    # a contig labelled only in its first part + a chimeric molecule whose right-hand rest
+        # carries that contig's label pattern: the second-pass fragment keeps the whole molecule's coordinates, so its
+        # vector is longer than the labelled part of the contig although its label span is not
+        from lib import gen
+        pat = gen.make_reference(rng, rng.randint(20, 28), min_gap=2500, mean_gap=9000)
+        pat = [v - pat[0] + rng.randint(500, 4000) for v in pat]
+        refs.append({"id": 903, "len": (pat[-1] + rng.randint(400000, 900000)) * 10, "x": [v * 10 for v in pat], "bp": pat})
+        xs = refs[0]["bp"]
+        w = min(len(xs) - 10, rng.randint(42, 55))
+        w0 = rng.randint(4, len(xs) - w - 4)
+        a, _ = gen.cut_query(rng, xs, w0, w0 + w, sigma=60)
+        gap = rng.randint(3000, 9000)
+        q(a + [a[-1] + gap + v - pat[0] for v in pat], length_extra=rng.choice([10, 30000]))
+        b, _ = gen.cut_query(rng, xs, w0, w0 + w, sigma=60)
+        b = gen.mirror_query(b)
+        q([v - pat[0] for v in pat] + [pat[-1] - pat[0] + gap + v - b[0] for v in b])
+    elif flavour % 8 == 0:      # one- and two-label molecules
         q([500])
         q([100, 9000])
         q([0])
-    elif flavour % 7 == 1:    # duplicate positions
+    elif flavour % 8 == 1:    # duplicate positions
         q([1000, 1000, 1000, 8000, 8000, 20000, 31000, 31000, 45000, 60000])
         q([10, 10])
-    elif flavour % 7 == 2:    # longer than every reference
+    elif flavour % 8 == 2:    # longer than every reference
         xs = list(range(0, big // 10 + 200000, 9000))
         q(xs)
-    elif flavour % 7 == 3:    # a reference with a single label / two labels, molecules in between
+    elif flavour % 8 == 3:    # a reference with a single label / two labels, molecules in between
         refs.append({"id": 900, "len": 500000, "x": [1234560], "bp": [123456]})
         refs.append({"id": 901, "len": 900000, "x": [100000, 8000000], "bp": [10000, 800000]})
         q([0, 7000, 15000, 21000, 30000, 41000, 47000, 58000])
-    elif flavour % 7 == 4:    # no ordinary query at all: empty result sets
+    elif flavour % 8 == 4:    # no ordinary query at all: empty result sets
         qrys = []
         q([0, 3000])
         q([200, 5000, 5100])
